@@ -121,7 +121,7 @@ pub struct Writer<W: Write> {
     header: Vec<u8>,
 }
 
-fn pad(len: usize) -> Option<Vec<u8>> {
+pub(crate) fn pad(len: usize) -> Option<Vec<u8>> {
     // pad out to a multiple of 4 bytes
     let overhang = len % 4;
     if overhang != 0 {
